@@ -102,7 +102,7 @@ def run_cli(script, args, stdin_mode='open', data=b'', timeout=180, env=None, ha
             pass
     return (out[0] if out else b''), (err[0] if err else b''), p.returncode, timed_out
 
-def run_cli_blocked(script, args, chunks, settle=1.0, timeout=180, hashseed='0', max_out=64 << 20, use_pty=False, signal_when_blocked=None):
+def run_cli_blocked(script, args, chunks, settle=1.0, timeout=180, hashseed='0', max_out=64 << 20, use_pty=False, signal_when_blocked=None, pretyped=None):
     """Back-pressure monitor: start the CLI with stdout on a pipe nobody reads, wait until the pipe is full and its fill level has stopped moving (the
     generator is then blocked inside a write, at a well-defined point of its stream), write `chunks` (each one write()) to the stdin pipe, wait until the
     child has consumed them and its stderr has been quiet for `settle` seconds, then drain stdout until the process ends.
@@ -119,6 +119,8 @@ def run_cli_blocked(script, args, chunks, settle=1.0, timeout=180, hashseed='0',
     if use_pty:
         # standard input is a terminal somebody types on (the chunks are typed on the master side)
         master, slave = pty.openpty()
+        if pretyped:
+            os.write(master, pretyped)          # typed ahead: it waits in the terminal's input queue before the program has even started
         p = subprocess.Popen(cmd, stdin=slave, stdout=subprocess.PIPE, stderr=subprocess.PIPE, cwd=s, env=e)
     else:
         p = subprocess.Popen(cmd, stdin=subprocess.PIPE, stdout=subprocess.PIPE, stderr=subprocess.PIPE, cwd=s, env=e)
